@@ -95,6 +95,15 @@ CLAIMS = {
         note=TB + "the `regex` crate is modelled only through the LIKE fragment; regexp_*, upper/lower/initcap and md5 are not modelled.",
         technique="Lean proof (LIKE rewrite classes = denotation, by induction) + three-context differential of LIKE and string functions",
         design="5/C20"),
+    "C05": dict(
+        text=("Props/C05.lean: executor_is_map - the model of the vectorised binary executor (physical buffer + validity by logical row + selection; all-valid fast path and per-row validity path) "
+              "returns liftNull f (a[i]) (b[i]) for every selected row, for every vector shape (flat, constant, dictionary-selected, any validity) and any batch selection, so the value cannot depend on the "
+              "representation and both paths agree; Kleene truth tables on the whole domain. Tie: exhaustive truth tables and small-domain operator tables in column / constant-operand / literal-only form with "
+              "the optimizer on and off, and random typed expressions each evaluated in nine contexts (column, under a selection, CASE branch, second WHEN, after AND short-circuit, duplicated for CSE, join "
+              "condition, WHERE, literal-only) against Sem.evalE."),
+        note=TB + "Sem.evalE is the definition of each operator; function families with their own checks: integer/decimal arithmetic (C12), casts (C13), strings/LIKE (C20); float functions are not modelled.",
+        technique="Lean proof (vectorised executor = map over logical values for every representation) + nine-context differential against Sem",
+        design="5/C05"),
 }
 
 NOT_YET = {
